@@ -10,19 +10,19 @@ CHECKS = {
          "Seeded exploration: generated tokens and authorizer contents inside the specified fragment are authorized by the real library while the simulator decides every engine goroutine interleaving and owns the clock; each verdict class (and the set of failed checks) is compared with an independent reference implementation of the decision procedure. Sampling, not proof; the property is a function of the input, so the detecting power is that of the generator and the reference model, the simulator contributes schedule variation and removes timeouts as a source of noise.",
          "trusted: reference model bsim/ref (validated on the repository's sample tokens), Go runtime, testing/synctest; yield points are the 7 simYield call sites", "DESIGN.md §3 C04"),
  "C05": ("exploration", "deterministic simulation: datalog.World under seeded goroutine schedules and clock stalls; refinement against a naive least-fixpoint reference evaluator",
-         "Seeded exploration of programs x fact orders x engine schedules (calm, tape-ordered, tape-ordered with clock stalls): whenever Run returns nil the fact set must equal the reference least model (both inclusions) and every QueryRule result must equal the reference's head instances. Sampling, not proof.",
+         "Seeded exploration of programs x fact orders x routes through World's API (direct, clone, evaluate twice, facts added after a first evaluation, rules withdrawn with ResetRules before the real ones) x engine schedules (calm, tape-ordered, tape-ordered with clock stalls): whenever Run returns nil the fact set must equal the reference least model (both inclusions) and every QueryRule result must equal the reference's head instances. Sampling, not proof.",
          "trusted: reference evaluator bsim/ref (naive bottom-up, math/big arithmetic), Go regexp, synctest", "DESIGN.md §3 C05"),
  "C11": ("exploration", "deterministic simulation with fault injection: seeded schedules and clock stalls at engine yield points, limit configurations around the reference model's sizes, goroutine census after every call; plus enumeration of the stall position over every scheduler step of a program catalogue",
          "Seeded exploration (programs x limit configurations x schedules x clock stalls) with oracles S1-S6 of DESIGN §3 C11 (no silent truncation, limits honoured, distinguishable and possible error, bounded call time, limits honoured by every constructor, no stranded goroutine), plus a fault-enumeration part that is exhaustive in the injection step of the stall for a fixed catalogue of small programs (reported under coverage.fault_enumeration). Sampling elsewhere.",
          "trusted: reference model for |lfp| and depth, synctest's durable-blocking detection, runtime.Stack for the goroutine census", "DESIGN.md §3 C11"),
  "C01": ("exploration", "deterministic simulation with fault injection: multi-party histories (issuers, holders, verifiers) over a simulated transport on which a key-less adversary mutates in-flight tokens; oracle = independent wire decoder + ed25519 chain walk + ground-truth key ledger",
-         "Seeded exploration of derivation histories (chains up to 16 blocks, the same token object verified repeatedly) x 1-3 mutations per message drawn from 34 byte-level and structural mutation kinds; soundness (accepted => reference chain walk accepts and the authority block was signed by the issuer per the key ledger), completeness (well-formed and valid => accepted, including legitimately valid mutations such as appending with a captured next secret) and 'no Authorizer for a rejected token'. Sampling; ed25519 itself is trusted.",
+         "Seeded exploration of derivation histories (chains up to 16 blocks, the same token object verified repeatedly) x 1-3 mutations per message drawn from 34 byte-level and structural mutation kinds; soundness (accepted => reference chain walk accepts and the authority block was signed by the issuer per the key ledger), completeness (well-formed and valid => accepted, under a single key and under key sources holding the issuer's key under the id its builder was given or as default, including legitimately valid mutations such as appending with a captured next secret) and 'no Authorizer for a rejected token'. Sampling; ed25519 itself is trusted.",
          "trusted: bsim/ref wire reader and chain walk, crypto/ed25519; mutation kinds are those listed in the evidence 'rule'", "DESIGN.md §3 C01"),
  "C02": ("exploration", "deterministic simulation: delegation histories with hostile holders generating blocks against the verifier's policies; lineage invariant over the recorded history (model-free)",
          "Seeded exploration of delegation chains (1-5 hops) whose appended blocks are generated against the token and the authorizer content; invariant allow(descendant) => allow(ancestor) for every ancestor verified with the same authorizer content. Model-free relational oracle, so a reference-model bug cannot raise a C02 alarm. Sampling; reach is that of the adversarial block generator.",
          "trusted: nothing beyond the library's own verdict classification via errors.Is / nil", "DESIGN.md §3 C02"),
  "C03": ("exploration", "deterministic simulation: twin delegation histories with and without check-free blocks at random chain positions; twin agreement (model-free)",
-         "Seeded exploration of twin lineages; agreement on verdict class, failed-check set (block indexes remapped through the known insertion positions) and query result sets. Visibility of authority/authorizer facts to later blocks is decided on the same runs by the reference verdict. Sampling.",
+         "Seeded exploration of twin lineages (extra blocks are check-free, rule-only, or carry a copy of a check from elsewhere in the request that their own facts satisfy); agreement on verdict class, failed-check set (block indexes remapped through the known insertion positions) and query result sets. Visibility of authority/authorizer facts to later blocks is decided on the same runs by the reference verdict, and by a fresh-twin comparison when authorizer facts arrive after a first Authorize. Sampling.",
          "trusted: the failed-check extraction regexp is applied identically to both twins of the same build", "DESIGN.md §3 C03"),
  "C07": ("exploration", "deterministic simulation: every message honest parties put on the simulated wire is intercepted and decoded by an independent hand-written protobuf reader; byte-exact re-serialization; version-gate fault injected by an issuer-side re-sign",
          "Seeded exploration of build / attenuate / seal / serialize / reload histories over generated block contents: decoded content, symbol-table rules and version must equal what the callers supplied; Unmarshal+Serialize must be the identity on bytes; reloaded tokens print, identify and authorize like the originals; unsupported versions must be rejected. Sampling.",
@@ -55,7 +55,7 @@ CHECKS = {
          "Seeded exploration of interleavings; a data race is reported by the race detector whatever the distance in time between the two accesses because the scheduler contributes no happens-before edge; results of every operation must equal those of the same script run alone. Sampling; shadow-memory eviction can hide a pair, never invent one.",
          "trusted: Go race detector; the library has no lock/atomic whose critical section could be split, so operation granularity loses nothing for race detection", "DESIGN.md §3 C19"),
  "C20": ("fault_enumeration", "deterministic simulation with fault injection: simulated entropy source failing at every byte position; exhaustive enumeration of the failure point",
-         "Fault enumeration: every drawing operation x failure kind x EVERY k in [0,32] x 4 chunkings (1188 cases, exhaustive in k) on every run of the check, plus seeded random cases in longer histories: an operation whose draw failed returns an error and no token, does not panic, leaves its parent untouched and can be retried; a returned token's next secret equals the bytes actually delivered, its announced key is that seed's public key, and it verifies.",
+         "Fault enumeration: every drawing operation x failure kind x EVERY k in [0,32] x 5 deliveries (a supplied source in 4 chunkings, and no supplied source with the simulated process-wide default crypto/rand.Reader being read; 1485 cases, exhaustive in k) on every run of the check, plus seeded random cases in longer histories: an operation whose draw failed returns an error and no token, does not panic, leaves its parent untouched and can be retried; a returned token's next secret equals the bytes actually delivered, its announced key is that seed's public key, and it verifies.",
          "trusted: bsim/ref envelope decoder, crypto/ed25519", "DESIGN.md §3 C20"),
 }
 
